@@ -147,3 +147,6 @@ func vCatch(f func()) (panicked bool, msg string) {
 	return false, ""
 }
 func vUF3(name string, a, b, c int64) float64 { return 0 }
+
+// vKnown is a no-op natively: replays run the real code on the witness as is.
+func vKnown(key string, c bool) {}
